@@ -519,7 +519,8 @@ class Interp:
                 raise Unsupported(f"unknown attribute {obj.cls.__name__}.{name} (not in the scenario's pre-state)")
             return self.bind_classattr(obj, k, name, attr)
         if isinstance(obj, SSuper):
-            k, attr = self.find_in_mro(type_of(obj.self_), name, after=obj.after_cls)
+            start = obj.self_.obj if isinstance(obj.self_, SConst) and isinstance(obj.self_.obj, type) else type_of(obj.self_)
+            k, attr = self.find_in_mro(start, name, after=obj.after_cls)
             if k is None:
                 raise Unsupported(f"super().{name}")
             if k is object or (k.__module__ == "builtins"):
@@ -633,8 +634,12 @@ class Interp:
             raise Unsupported(f"enum construction {cls.__name__}({v!r})")
         new = self.find_method(cls, "__new__")
         if new is not None:
-            raise Unsupported(f"custom __new__ on {cls.__name__}")
-        o = SObj(cls, {})
+            new.decorators = [d for d in new.decorators if d != "staticmethod"]
+            o = self.resolve(self.call_ifunc(new, [SConst(cls)] + list(args), kwargs))
+            if not (isinstance(o, SObj) and issubclass(o.cls, cls)):
+                return o
+        else:
+            o = SObj(cls, {})
         init = self.find_method(cls, "__init__")
         if init is not None:
             self.call_ifunc(init, [o] + list(args), kwargs)
